@@ -700,6 +700,14 @@ package websocket
 //@ ensures [deregistered] {C15} !gvcMapHas(c.activePings, p) || old(gvcMapHas(c.activePings, p))
 //@ ensures [close-sent-kept] {C16} c.closeSent == old(c.closeSent)
 
+//@ func (*Conn).Ping
+//@ tags C15
+//@ note public entry point of ping
+//@ requires connReady(c) && ctx != nil && !gvcHeld(c.writeFrameMu.ch)
+//@ modifies $WRFP, mapof(c.activePings), c.pingCounter
+//@ ensures [closed-fails] {C06} old(gvcClosed(c.closed)) ==> result != nil
+//@ ensures [close-sent-kept] {C16} c.closeSent == old(c.closeSent)
+
 // ---------------------------------------------------------------------------
 // compress.go / accept.go / dial.go: permessage-deflate negotiation (C14)
 
